@@ -472,6 +472,8 @@ def emit(repo: str) -> str:
         "  collision_defaults_overwrite_gen.\n"
         "Definition sp_known_gen := sp_known wrapper_skips_gen setup_skips_gen post_skips_gen subgroups_removed_first_gen\n"
         "  collision_err_gen collision_defaults_overwrite_gen parents_site_gen.\n"
+        "Definition sp_parse_args_gen := sp_parse_args wrapper_skips_gen setup_skips_gen post_skips_gen subgroups_removed_first_gen\n"
+        "  collision_err_gen collision_defaults_overwrite_gen parents_site_gen.\n"
         "Definition ap_known_gen := ap_known wrapper_skips_gen setup_skips_gen.\n"
         "Definition sp_group_gen := sp_group group_prefix_fwd_gen group_default_fwd_gen group_handler_fwd_gen.\n"
     )
